@@ -206,11 +206,23 @@ def run(eng, rep):
         for ci in eng.calls_to(fid):
             n += 1
             a = ci.node.args
-            okc = len(a) >= 4 and "sl" in mentions(a[2]) and "su" in mentions(a[3])
+            okc = False
+            if len(a) >= 4 and all(isinstance(x, ast.BinOp) and isinstance(x.op, ast.Sub) for x in (a[2], a[3])):
+                lo, up = a[2], a[3]
+                same_centre = ekey(lo.right) == ekey(up.right)
+                sides = ekey(lo.left).split(".")[-1] == "sl" and ekey(up.left).split(".")[-1] == "su" and ekey(lo.left).rsplit(".", 1)[0] == ekey(up.left).rsplit(".", 1)[0]
+                # the centre is the incumbent in the frame of sl/su (relative to xbase): xopt() without abs_coordinates
+                cexpr = lo.right
+                if isinstance(cexpr, ast.Name):
+                    ccfg = eng.cfg(ci.caller)
+                    defs = ccfg.defs_reaching(cexpr, cexpr.id)
+                    cexpr = ccfg.ast_of(list(defs)[0]).value if len(defs) == 1 and isinstance(ccfg.ast_of(list(defs)[0]), ast.Assign) else None
+                centre_ok = isinstance(cexpr, ast.Call) and ekey(cexpr.func).endswith(".xopt") and not cexpr.args and not cexpr.keywords
+                okc = same_centre and sides and centre_ok
             if okc:
                 rep.ok("C14-3.generators-get-the-box-around-the-centre", eng.where(ci.caller, ci.node), "called with (%s, %s)" % (short(a[2], 30), short(a[3], 30)))
             else:
-                rep.bad("C14-3.generators-get-the-box-around-the-centre", eng.where(ci.caller, ci.node), "%s|generator-bounds" % ci.caller.fid, "generator is not given (sl - xopt, su - xopt)")
+                rep.bad("C14-3.generators-get-the-box-around-the-centre", eng.where(ci.caller, ci.node), "%s|generator-bounds" % ci.caller.fid, "generator is not given (sl - xopt, su - xopt) with xopt = <model>.xopt() in relative coordinates (got `%s`, `%s`)" % (short(a[2], 30) if len(a) > 2 else "?", short(a[3], 30) if len(a) > 3 else "?"))
     rep.require_count("C14-3.generators-get-the-box-around-the-centre", "generator call sites", n, 5)
     from .mirrorrule import rule_mirror
     rule_mirror(eng, rep, 'C14-5.lower-and-upper-bound-handling-are-reflections', ['util.get_scale', 'util.random_directions_within_bounds', 'util.random_orthog_directions_within_bounds', 'controller.Controller.initialise_coordinate_directions'])
